@@ -11,6 +11,7 @@ Rej == [t |-> "http", v |-> "rej"]
 D(n) == [kind |-> "data", dt |-> 0, items |-> n]
 B(n) == [kind |-> "data", dt |-> 0, bytes |-> n]
 Eof == [kind |-> "eof", dt |-> 0]
+T5 == [kind |-> "timeout", dt |-> 5]
 H(name, net, stream, steps, react) == [name |-> name, net |-> net, stream |-> stream, steps |-> steps, react |-> react]
 R(ev, call) == [ev |-> ev, call |-> call]
 Hello == <<104, 101, 108, 108, 111>>
@@ -53,6 +54,8 @@ Continuations == {
   H("send_then_close",      <<"ok">>, <<Ok, F(8, 1, <<3, 232>>)>>, <<D(1), D(1), Eof>>, <<R("ready#0", "send"), R("poll#0", "close")>>),
   H("server_close_with_reason", <<"ok">>, <<Ok, F(1, 1, <<97>>), F(8, 1, <<3, 232, 98, 121, 101>>)>>, <<D(3), Eof>>, <<>>),
   H("rejected",             <<"ok">>, <<Rej>>, <<D(1), Eof>>, <<>>),
+  \* (time passes: 40 s of silence - longer than the default close time-out - before the server drops the connection)
+  H("idle_for_a_while",     <<"ok">>, <<Ok>>, <<D(1), T5, T5, T5, T5, T5, T5, T5, T5, Eof>>, <<>>),
   H("silent_drop",          <<"ok">>, <<Ok>>, <<D(1), Eof>>, <<R("ready#0", "send")>>) }
 
 VARIABLE st
